@@ -465,15 +465,15 @@ func genConc(prop string, seed uint64, tier string) *ConcScenario {
 			ph.Tasks = append(ph.Tasks, prog)
 			steps += no * 25
 		}
-		if prop == "C06" && cacheFam && g.r.Bool(0.3) {
+		if (prop == "C06" || prop == "C02") && cacheFam && g.r.Bool(0.3) {
 			// the clock moves while removers and writers are in flight: entries
 			// with tiny TTLs expire between (and inside) overlapping passes
 			for t := range ph.Tasks {
 				for i := range ph.Tasks[t] {
 					op := &ph.Tasks[t][i]
 					switch op.K {
-					case CSet, CGetOrSet, CGetAndSet, CGetOrCompute:
-						if g.r.Bool(0.7) {
+					case CSet, CGetOrSet, CGetAndSet, CGetOrCompute, CCompute, CGetAndRefresh:
+						if (prop == "C02" || (op.K != CCompute && op.K != CGetAndRefresh)) && g.r.Bool(0.7) {
 							op.D = int64(1 + g.r.Intn(4))
 						}
 					}
